@@ -223,5 +223,9 @@ type Replay struct {
 	Sig      string          `json:"sig"`
 	Detail   string          `json:"detail"`
 	Shrunk   bool            `json:"minimised"`
-	Scenario json.RawMessage `json:"scenario"`
+	// Prelude: scenarios that must be executed in the same process before the
+	// failing one (the violation depends on state the library keeps between
+	// calls). Empty for ordinary, self-contained violations.
+	Prelude  []json.RawMessage `json:"prelude,omitempty"`
+	Scenario json.RawMessage   `json:"scenario"`
 }
